@@ -1318,6 +1318,17 @@ class Engine:
         a = node.args
         if is_method and (a.posonlyargs + a.args):
             vars[(a.posonlyargs + a.args)[0].arg] = self_val if self_val is not None else Obj(self_obj)
+        if getattr(node, '_pyvc_loops_tagged', False) and kc_ is not None and not missing:
+            # the callee's loop invariants are inductive under ITS precondition: the call site must establish it
+            from .contract import CallCtx, coerce_arg
+            try:
+                vals_ = {p_: coerce_arg(self, ctx, bound[p_], kd_) for p_, kd_ in kc_.params.items() if p_ in bound}
+                c0_ = CallCtx(self, ctx, ctx.st, ctx.st, vals_, self_obj=self_obj)
+                for rn_, rt_ in (kc_.requires(c0_) or {}).items():
+                    if not (rn_.startswith('assume:') or rn_.startswith('dom.')):
+                        self.oblig('call:%s/pre.%s' % (kc_.target, rn_), ctx, rt_, kind='callpre')
+            except Unsupported:
+                raise
         caller = ctx.fid
         ctx.frames[fid] = Frame(vars, parent, self_obj, cls, node.name if hasattr(node, 'name') else '<lambda>', modname)
         ctx.fid = fid
